@@ -86,7 +86,14 @@ func (el *eventloop) Schedule(context.Context, Runnable, time.Duration) error {
 }
 
 func (el *eventloop) Close(c Conn) error {
-	return el.close(c.(*conn), nil)
+	err := el.close(c.(*conn), nil)
+	if errors.Is(err, errorx.ErrEngineShutdown) {
+		// OnClose asked for the shutdown of the engine, but the caller is an event handler
+		// with a return value of its own and may well drop this error, hand the request
+		// to the event-loop as a shutdown signal so that it always takes effect.
+		_ = el.poller.Trigger(queue.HighPriority, func(any) error { return err }, nil)
+	}
+	return err
 }
 
 func (el *eventloop) getLogger() logging.Logger {
